@@ -312,8 +312,35 @@ class ASTTypeBuilder:
             nodes=[type_def],
         )
 
+    def _build_input_position_type(
+        self, node: _ast.InputValueDefinition
+    ) -> GraphQLType:
+        # Types at input positions are built eagerly: an output type there can
+        # never be valid, is not usable to coerce a default value and could
+        # even be the type currently being built.
+        named = node.type
+        while isinstance(named, (_ast.ListType, _ast.NonNullType)):
+            named = named.type
+
+        type_def = self._type_defs.get(named.name.value)
+        if isinstance(
+            type_def,
+            (
+                _ast.ObjectTypeDefinition,
+                _ast.InterfaceTypeDefinition,
+                _ast.UnionTypeDefinition,
+            ),
+        ):
+            raise SDLError(
+                'Expected input type for "%s" but got "%s"'
+                % (node.name.value, named.name.value),
+                [node],
+            )
+
+        return self.build_type(node.type)
+
     def _build_argument(self, node: _ast.InputValueDefinition) -> Argument:
-        type_ = self.build_type(node.type)
+        type_ = self._build_input_position_type(node)
         kwargs = dict(description=_desc(node), node=node)
         if node.default_value is not None:
             kwargs["default_value"] = value_from_ast(
@@ -322,7 +349,7 @@ class ASTTypeBuilder:
         return Argument(node.name.value, type_, **kwargs)  # type: ignore
 
     def _build_input_field(self, node: _ast.InputValueDefinition) -> InputField:
-        type_ = self.build_type(node.type)
+        type_ = self._build_input_position_type(node)
         kwargs = dict(description=_desc(node), node=node)
         if node.default_value is not None:
             kwargs["default_value"] = value_from_ast(
